@@ -1,13 +1,13 @@
 """Translator for C02 -> Gen/C02Tables.lean (regenerated from /repo on every run).
 
-Read from the source text of chython/algorithms/smiles.py (AST; the module is not imported for these):
+Read from chython/algorithms/smiles.py:
 
-  charge_str                     dict literal int -> str            -> `chargeStr`
-  organic_set                    set literal of str                 -> `organicSet`
-  B, C, N, P, S                  module-level atomic number constants
-  Smiles._smiles                 `heap = list(range(LO, HI))`       -> `heapLo`, `heapHi`
-  Smiles._format_closure         `return str(c) if c < K else f'%{c}'` -> `closurePercentFrom`, `closurePrefix`
-  MoleculeSmiles._format_atom    the three tuples `atom in (B, N, P)`, `atom in (B, C, P, S)`, `atom == P` (hand-checked shape)
+  charge_str                     the module dict int -> str (imported) -> `chargeStr`
+  organic_set                    the module set of str (imported)      -> `organicSet`
+  B, C, N, P, S                  module-level atomic number constants (imported)
+  Smiles._smiles                 `heap = <expr over list/range>` (AST, evaluated in an empty namespace) -> `heapLo`, `heapHi`
+  Smiles._format_closure         called on every heap number; must be digits below K, prefix+digits from K on
+                                                                        -> `closurePercentFrom`, `closurePrefix`
 
 and from the live classes (import chython.periodictable): atomic number -> symbol for every Element subclass.
 
@@ -64,56 +64,63 @@ def _find(tree, qual):
 
 
 def extract():
+    """module-level tables are read from the imported module (any spelling of the same dict/set is accepted); the heap
+    initialiser is a local of `_smiles`, so its right-hand side is evaluated with only `list`/`range`/`tuple` in scope and
+    must be a contiguous ascending run of positive ints; `_format_closure` is *called* for every number of the heap and
+    must fit `digits` below a threshold and `prefix + digits` from it on."""
+    import chython.algorithms.smiles as S
     src = (REPO / 'chython' / 'algorithms' / 'smiles.py').read_text()
     tree = ast.parse(src)
-    cs = _module_assign(tree, 'charge_str')
-    if not isinstance(cs, ast.Dict):
-        raise TranslatorError('charge_str is not a dict literal')
-    charge = [(_int(k, 'charge_str key'), _str(v, 'charge_str value')) for k, v in zip(cs.keys, cs.values)]
-    og = _module_assign(tree, 'organic_set')
-    if not isinstance(og, ast.Set):
-        raise TranslatorError('organic_set is not a set literal')
-    organic = sorted(_str(e, 'organic_set element') for e in og.elts)
-    consts = {k: _int(_module_assign(tree, k), k) for k in 'BCNPS'}
+    cs = S.charge_str
+    if not isinstance(cs, dict) or not all(isinstance(k, int) and isinstance(v, str) for k, v in cs.items()):
+        raise TranslatorError('charge_str is not a dict int -> str')
+    charge = list(cs.items())
+    og = S.organic_set
+    if not all(isinstance(e, str) for e in og):
+        raise TranslatorError('organic_set is not a collection of str')
+    organic = sorted(og)
+    consts = {}
+    for k in 'BCNPS':
+        v = getattr(S, k, None)
+        if not isinstance(v, int):
+            raise TranslatorError(f'module constant {k} is not an int')
+        consts[k] = v
 
     fn = _find(tree, 'Smiles._smiles')
     heap = None
     for st in ast.walk(fn):
         if isinstance(st, ast.Assign) and len(st.targets) == 1 and isinstance(st.targets[0], ast.Name) \
                 and st.targets[0].id == 'heap':
-            v = st.value
-            ok = (isinstance(v, ast.Call) and isinstance(v.func, ast.Name) and v.func.id == 'list' and len(v.args) == 1
-                  and isinstance(v.args[0], ast.Call) and isinstance(v.args[0].func, ast.Name)
-                  and v.args[0].func.id == 'range' and len(v.args[0].args) == 2)
-            if not ok:
-                raise TranslatorError(f'heap initialiser: expected list(range(a, b)), got {ast.unparse(v)}')
-            heap = (_int(v.args[0].args[0], 'heap lo'), _int(v.args[0].args[1], 'heap hi'))
+            names = {n.id for n in ast.walk(st.value) if isinstance(n, ast.Name)}
+            if not names <= {'list', 'range', 'tuple', 'sorted'} or any(isinstance(n, (ast.Attribute, ast.Lambda)) for n in ast.walk(st.value)):
+                raise TranslatorError(f'heap initialiser uses unknown names: {ast.unparse(st.value)}')
+            try:
+                val = list(eval(compile(ast.Expression(st.value), '<heap>', 'eval'),
+                                {'__builtins__': {}, 'list': list, 'range': range, 'tuple': tuple, 'sorted': sorted}))
+            except Exception as e:  # noqa
+                raise TranslatorError(f'heap initialiser cannot be evaluated: {ast.unparse(st.value)}: {e}')
+            if not val or any(not isinstance(x, int) for x in val) or val != list(range(val[0], val[-1] + 1)) or val[0] < 0:
+                raise TranslatorError(f'heap is not a contiguous ascending run: {val[:5]}…')
+            heap = (val[0], val[-1] + 1)
     if heap is None:
         raise TranslatorError('heap initialiser not found in Smiles._smiles')
 
-    fc = _find(tree, 'Smiles._format_closure')
-    body = [s for s in fc.body if not (isinstance(s, ast.Expr) and isinstance(s.value, ast.Constant))]
-    if len(body) != 1 or not isinstance(body[0], ast.Return) or not isinstance(body[0].value, ast.IfExp):
-        raise TranslatorError('_format_closure: expected `return str(c) if c < K else f"%{c}"`')
-    ife = body[0].value
-    t = ife.test
-    ok = (isinstance(t, ast.Compare) and isinstance(t.left, ast.Name) and len(t.ops) == 1 and isinstance(t.ops[0], ast.Lt)
-          and ast.unparse(ife.body) == f'str({t.left.id})' and isinstance(ife.orelse, ast.JoinedStr)
-          and len(ife.orelse.values) == 2 and isinstance(ife.orelse.values[0], ast.Constant)
-          and isinstance(ife.orelse.values[1], ast.FormattedValue)
-          and ast.unparse(ife.orelse.values[1].value) == t.left.id and ife.orelse.values[1].format_spec is None
-          and ife.orelse.values[1].conversion == -1)
-    if not ok:
-        raise TranslatorError(f'_format_closure: unexpected body {ast.unparse(body[0])}')
-    thr = _int(t.comparators[0], '_format_closure threshold')
-    prefix = ife.orelse.values[0].value
+    fc = S.Smiles._format_closure
+    outs = {c: fc(c) for c in range(heap[0], max(heap[1], 12))}
+    if not all(isinstance(v, str) for v in outs.values()):
+        raise TranslatorError('_format_closure does not return str')
+    plain = [c for c, v in outs.items() if v == str(c)]
+    pref = [c for c, v in outs.items() if v != str(c)]
+    thr = min(pref) if pref else max(outs) + 1
+    prefix = outs[thr][:-len(str(thr))] if pref else '%'
+    if any(c >= thr for c in plain) or any(outs[c] != prefix + str(c) for c in pref) or any(ch.isdigit() for ch in prefix):
+        raise TranslatorError(f'_format_closure does not fit digits / prefix+digits: {list(outs.items())[:12]}')
 
     from chython.periodictable import Element
     syms = []
     for c in Element.__subclasses__():
         try:
             z = c.atomic_number.fget(None)
-            s = c.atomic_symbol.fget(None) if isinstance(c.atomic_symbol, property) else c.__name__
         except Exception:
             continue
         if isinstance(z, int):
